@@ -457,6 +457,9 @@ func newWalletBatch(b *Batch, fr *core.Rand, thorough bool) {
 		if r.Chance(0.4) {
 			ep.AtIndex = r.Uint32n(minU(leaves-2, 40))
 		}
+		if stub && leaves >= 1024 && r.Chance(0.3) { // signatures far into the key's life
+			ep.AtIndex = r.Uint32n(minU(leaves-4, 5000))
+		}
 		return ep
 	}
 	for i := len(stubH) - 1; i >= 0; i-- {
